@@ -259,11 +259,24 @@ func docReplay(args []string) *Result {
 		}
 		okCanon := checkBuild(res, "doc", cs.Doc, rd, &cs.X, &o, map[string]any{"kind": "doc", "case": cs, "text": rd.text})
 		// the same document in other layouts the language defines as equivalent (C08 / C02)
-		for l := 0; okCanon && l < nLayouts && !selftest; l++ {
+		for l := 0; l < nLayouts && !selftest; l++ {
 			lo := randomLayout(lrng)
 			rd2 := renderTokens(cs.Doc, false, lo)
 			o2 := buildText(rd2.text)
 			res.count("layouts")
+			if !okCanon {
+				// the canonical layout already deviates from the specification (reported above, C02's business); the layouts
+				// must still agree with one another: compare with the canonical layout directly
+				if o.Res == "panic" || o2.Res == "panic" {
+					break
+				}
+				if o.Res != o2.Res || (o.Res == "ok" && string(o.JSON) != string(o2.JSON)) || (o.Res == "err" && classifyBuildErr(o.Msg) != classifyBuildErr(o2.Msg)) {
+					res.mismatch("layout:differs-from-canonical", fmt.Sprintf("canonical layout: %s %s; this layout: %s %s", o.Res, firstLine(o.Msg), o2.Res, firstLine(o2.Msg)),
+						map[string]any{"kind": "doc-layout", "case": cs, "text": rd2.text, "canonical": rd.text})
+					break
+				}
+				continue
+			}
 			if !checkBuild(res, "layout", cs.Doc, rd2, &cs.X, &o2, map[string]any{"kind": "doc-layout", "case": cs, "text": rd2.text}) {
 				break
 			}
